@@ -23,10 +23,6 @@ SEQ_PRESERVING = {"list", "tuple", "iter", "enumerate", "zip", "map", "filter", 
 
 # reasoned allow-list: (relpath, qualname, normalised exposure text) -> reason.  One construct wide each.
 ALLOW: Dict[Tuple[str, str, str], str] = {
-    ("json_to_models/models/structure.py", "extract_root", "filter_pointers(model)"):
-        "work-list of a visited-set reachability: the traversal order changes, the returned set of roots does not",
-    ("json_to_models/models/structure.py", "extract_root", "filter_pointers(node.parent)"):
-        "same work-list (pointers of the parent pushed in arbitrary order, tested for emptiness); the result is a set",
     ("json_to_models/models/structure.py", "compose_models", "extract_root(model)"):
         "`roots` list: read only under len()==1, or through insert_before(), which takes min() of the found positions",
     ("json_to_models/models/structure.py", "compose_models_flat", "extract_root(model)"):
@@ -34,6 +30,12 @@ ALLOW: Dict[Tuple[str, str, str], str] = {
     ("json_to_models/utils.py", "distinct_words", "words"):
         "computes the substring-minimal words (an antichain, unique whatever the visiting order); both callers sort "
         "the returned set",
+}
+
+
+KEY_ALLOW: Dict[Tuple[str, str, str], str] = {
+    ("json_to_models/registry.py", "ModelRegistry.merge_models", "key=lambda model: order[model.index]"):
+        "`order` maps each registry index to its position; indexes are unique per registry, so the key is injective",
 }
 
 
@@ -297,6 +299,9 @@ def find_exposures(ctx: Ctx, oa: OrdAnalysis) -> List[Exposure]:
                             if short == "join" and not isinstance(n.func, ast.Attribute):
                                 continue
                             out.append(Exposure(fi, m, a, f"{fn}()", n))
+                if fn == "sorted" and n.args and any(k.arg == "key" for k in n.keywords) and \
+                        oa.is_unordered(fi, m, n.args[0]):
+                    out.append(Exposure(fi, m, n.args[0], "sorted(key=...)", n))
                 for a in n.args:
                     if isinstance(a, ast.Starred) and oa.is_unordered(fi, m, a.value):
                         par_ok = norm(n.func) in ORDER_NEUTRAL_CALLS
@@ -368,6 +373,9 @@ class Discharger:
         if isinstance(n, (ast.ListComp, ast.GeneratorExp, ast.Call, ast.List, ast.Tuple, ast.JoinedStr, ast.Assign)):
             if isinstance(n, ast.Call):
                 fn = norm(n.func)
+                if ex.how == "sorted(key=...)":
+                    key = next(k.value for k in n.keywords if k.arg == "key")
+                    return self._key_total(fi, mod, key)
                 if fn.split(".")[-1] == "join":
                     return False, "joined into a string in set order"
                 if ex.how.startswith("*-unpacking"):
@@ -380,6 +388,23 @@ class Discharger:
                 return False, "tuple-unpacking assigns elements in set order"
             return self._value_uses(fi, mod, n, ex.how, depth)
         return False, f"unhandled exposure kind {type(n).__name__}"
+
+    def _key_total(self, fi, mod, key: ast.AST) -> Tuple[bool, str]:
+        """sorted(<set>, key=K) is deterministic only if K never ties on distinct elements."""
+        if isinstance(key, ast.Lambda):
+            arg = key.args.args[0].arg if key.args.args else None
+            body = key.body
+            # a tuple whose last component is the element itself breaks every tie
+            if isinstance(body, ast.Tuple) and body.elts and norm(body.elts[-1]) == arg:
+                return True, "sort key ends with the element itself (no ties)"
+            if norm(body) == arg:
+                return True, "identity key"
+        k = (mod.relpath, fi.qualname if fi else "<module>", f"key={norm(key)}")
+        if k in KEY_ALLOW:
+            self.allow_hits.append((k, getattr(key, "lineno", 0), "sort key accepted by table"))
+            return True, KEY_ALLOW[k]
+        return False, (f"sorted with key `{norm(key)[:60]}`: elements with equal keys stay in set order (the sort is "
+                       f"stable), so ties are resolved by the hash seed")
 
     # -- loops ----------------------------------------------------------------------------------------------
     def _loop_commutative(self, fi, mod, lp: ast.For) -> Tuple[bool, str]:
@@ -515,6 +540,8 @@ class Discharger:
             short = fn.split(".")[-1]
             if node is par.func:
                 return False, "called"
+            if fn == "sorted" and any(k.arg == "key" for k in par.keywords):
+                return self._key_total(fi, mod, next(k.value for k in par.keywords if k.arg == "key"))
             if fn in ORDER_NEUTRAL_CALLS:
                 return True, f"consumed by {fn}()"
             if isinstance(par.func, ast.Attribute) and short in ("update", "add", "issubset", "issuperset",
@@ -524,6 +551,14 @@ class Discharger:
                 return True, f"consumed by set method .{short}()"
             if short == "join":
                 return False, "joined into a string in set order"
+            if isinstance(par.func, ast.Attribute) and short in ("extend", "append") and \
+                    isinstance(par.func.value, ast.Name) and fi is not None:
+                wname = par.func.value.id
+                wuses = [x for x in walk_no_nested(fi.node) if isinstance(x, ast.Name) and x.id == wname
+                         and isinstance(x.ctx, ast.Load)]
+                wl = self._worklist_idiom(fi, mod, wname, wuses)
+                if wl is not None:
+                    return wl
             if fn in SEQ_PRESERVING:
                 if short == "next" and fn == "next":
                     # next(iter(S)) is deterministic only when S has at most one element
@@ -610,11 +645,52 @@ class Discharger:
                          and isinstance(x.ctx, ast.Load) and name not in local_names(g.node)]
         if not uses:
             return True, f"`{name}` is never read"
+        wl = self._worklist_idiom(fi, mod, name, uses)
+        if wl is not None:
+            return wl
         for u in uses:
             ok, why = self._value_uses(fi, mod, u, f"`{name}`", depth + 1)
             if not ok:
                 return False, f"`{name}` (line {u.lineno}): {why}"
         return True, f"every use of `{name}` is order-neutral"
+
+    def _worklist_idiom(self, fi, mod, name: str, uses) -> Optional[Tuple[bool, str]]:
+        """`W = list(<set-ordered>)`; `while W: x = W.pop(); ...; W.extend(...)` with a visited set: a reachability
+        closure.  Its result does not depend on the visiting order provided the loop never leaves early and only
+        adds to sets."""
+        loops = [n for n in walk_no_nested(fi.node) if isinstance(n, ast.While) and norm(n.test) == name]
+        if len(loops) != 1:
+            return None
+        lp = loops[0]
+        for u in uses:
+            par = mod.parents.get(u)
+            if par is lp:
+                continue
+            if isinstance(par, ast.Attribute) and par.attr in ("pop", "extend", "append") and \
+                    isinstance(mod.parents.get(par), ast.Call):
+                continue
+            return None
+        for st in lp.body:
+            for x in walk_no_nested(st):
+                if isinstance(x, (ast.Break, ast.Return)):
+                    return False, (f"work-list loop over `{name}` leaves early (`{norm(x)[:30]}`): which elements were "
+                                   f"processed by then depends on set order")
+                if isinstance(x, ast.Call) and isinstance(x.func, ast.Attribute):
+                    recv = norm(x.func.value)
+                    if x.func.attr in ("append", "insert") and recv != name:
+                        return False, f"work-list loop records elements in visiting order via `{norm(x)[:40]}`"
+                    if x.func.attr in ("extend",) and recv != name:
+                        return False, f"work-list loop records elements in visiting order via `{norm(x)[:40]}`"
+                if isinstance(x, ast.Assign):
+                    for t in x.targets:
+                        if isinstance(t, (ast.Subscript, ast.Attribute)):
+                            return False, f"work-list loop writes `{norm(t)[:40]}` in visiting order"
+        # whatever escapes the function must be a set (or nothing)
+        for r in walk_no_nested(fi.node):
+            if isinstance(r, ast.Return) and r.value is not None and not self.oa.is_unordered(fi, mod, r.value):
+                return False, "work-list loop's function returns an ordered value"
+        return True, (f"`{name}` is a work-list of a visited-set closure: no early exit, only set additions, and the "
+                      f"function returns a set")
 
     def _return_uses(self, fi: FuncInfo, depth: int) -> Tuple[bool, str]:
         """The function returns a set-ordered sequence: check every call site."""
@@ -734,9 +810,9 @@ def rule_ord1(ctx: Ctx) -> RuleResult:
         if k not in used_allow:
             used_allow.add(k)
             rr.instances += 1
-            rr.ob(k[0], k[1], k[2], "a set-ordered sequence returned by a helper is consumed order-neutrally", ALLOWED,
-                  ALLOW[k] + f" (rule said: {why})", line)
-    for k in ALLOW:
+            rr.ob(k[0], k[1], k[2], "a set-ordered sequence is consumed order-neutrally", ALLOWED,
+                  (ALLOW.get(k) or KEY_ALLOW.get(k, "")) + f" (rule said: {why})", line)
+    for k in list(ALLOW) + list(KEY_ALLOW):
         if k not in used_allow:
             rr.stale_allow.append(f"{k[0]}::{k[1]} `{k[2]}`")
     return rr
